@@ -164,13 +164,16 @@ def isTermK (S : LSchema) (sid : Nat) : Bool := S.kind sid == some .leaflist || 
 end LSchema
 
 /-- print options the LYB printer looks at: `LYD_PRINT_WD_ALL_TAG`, `LYD_PRINT_WD_IMPL_TAG` (explicit / trim / all print the
-same bytes); `LYD_PRINT_WITHSIBLINGS` is always set -/
+same bytes) and `LYD_PRINT_WITHSIBLINGS` -/
 structure POpts where
   tagAll : Bool := false
   tagImpl : Bool := false
   /-- source variant, not an API option: `lyb_print_metadata` has the with-defaults annotation block (read off the source:
   `Generated.LybTree.lybWdAnnot`; `false` once the repair of finding F330 is applied) -/
   wdAnnot : Bool := lybWdAnnot
+  /-- `LYD_PRINT_WITHSIBLINGS` (`lyd_print_all`); `false`: `lyd_print_tree` — exactly one top-level tree, and of a top-level
+  list / leaf-list exactly one instance (the `break`s of `lyb_print_siblings`, `lyb_print_node_list`, `lyb_print_node_leaflist`) -/
+  withSiblings : Bool := true
   deriving Repr, DecidableEq
 
 /-! ## printer -/
@@ -274,15 +277,38 @@ def sibOps (o : POpts) (S : LSchema) (par : Option Nat) (fc : FrameCtx) : Option
          else instOps o S n +++ sibOps o S par fc none rest)
 end
 
+/-- `lyb_print_siblings` on the top level without `LYD_PRINT_WITHSIBLINGS`: the first node only; the instance loop of a list /
+leaf-list stops after that instance (`!lyd_parent(node) && !(print_options & LYD_PRINT_WITHSIBLINGS)`) -/
+def topSingleOps (o : POpts) (S : LSchema) (fc : FrameCtx) : List DNode → Option (List Op)
+  | [] => some []
+  | n :: _ =>
+    nodeHeadOps S none fc n.sid +++
+      (if S.isMulti n.sid then some [.start] +++ instOps o S n +++ some [.stop] else instOps o S n)
+
 def magicOp : Op := .write (P_MAGIC.map UInt8.ofNat)
 
-/-- `lyb_print_data(out, root, LYD_PRINT_WITHSIBLINGS | wd)`: the calls of the chunk layer -/
-def docOps (o : POpts) (S : LSchema) (t : List DNode) : Option (List Op) :=
+/-- the document around the top-level frame content `top`: magic number, header byte, module table (the modules of ALL top-level
+siblings of `root`, also without `LYD_PRINT_WITHSIBLINGS`: one module here), the frame, the ending zero -/
+def docAround (S : LSchema) (t : List DNode) (top : Option (List Op)) : Option (List Op) :=
   some [magicOp, .write [UInt8.ofNat LYB_VERSION_NUM]] +++
     (if t.isEmpty then some [wNum P_MODCOUNT 0] else some [wNum P_MODCOUNT 1] +++ modelOps S.modName S.rev true) +++
-    some [.start] +++ sibOps o S none (S.frame none) none t +++ some [.stop, .write [0]]
+    some [.start] +++ top +++ some [.stop, .write [0]]
 
-/-- the LYB image of a forest (`none`: the printer fails — `LY_EINT`) -/
+/-- `lyb_print_data(out, root, LYD_PRINT_WITHSIBLINGS | wd)` -/
+def docOpsW (o : POpts) (S : LSchema) (t : List DNode) : Option (List Op) :=
+  docAround S t (sibOps o S none (S.frame none) none t)
+
+/-- `lyb_print_data(out, root, options)`: the calls of the chunk layer -/
+def docOps (o : POpts) (S : LSchema) (t : List DNode) : Option (List Op) :=
+  if o.withSiblings then docOpsW o S t else docAround S t (topSingleOps o S (S.frame none) t)
+
+/-- the LYB image of a forest printed with all its siblings (`none`: the printer fails — `LY_EINT`) -/
+def printLybW (P : Params) (o : POpts) (S : LSchema) (t : List DNode) : Option Bytes :=
+  match docOpsW o S t with
+  | none => none
+  | some ops => writeAll P ops
+
+/-- the LYB image of a forest under the print options -/
 def printLyb (P : Params) (o : POpts) (S : LSchema) (t : List DNode) : Option Bytes :=
   match docOps o S t with
   | none => none
